@@ -66,10 +66,18 @@ type VerifEvent struct {
 }
 
 // VerifObserved wraps a freelist and reports every exported call after it
-// returned. It changes no result.
+// returned (and, if Before is set, announces it before it starts: a scheduling
+// point for the simulator). It changes no result.
 type VerifObserved struct {
 	Interface
-	After func(*VerifEvent)
+	After  func(*VerifEvent)
+	Before func(call string)
+}
+
+func (o *VerifObserved) before(call string) {
+	if o.Before != nil {
+		o.Before(call)
+	}
 }
 
 // VerifObserve wraps f.
@@ -91,59 +99,70 @@ func VerifSnapshot(f Interface) (free []common.Pgid, pending map[common.Txid][]c
 }
 
 func (o *VerifObserved) Init(ids common.Pgids) {
+	o.before("Init")
 	cp := slices.Clone([]common.Pgid(ids))
 	o.Interface.Init(ids)
 	o.After(&VerifEvent{Call: "Init", Ids: cp})
 }
 
 func (o *VerifObserved) Read(p *common.Page) {
+	o.before("Read")
 	o.Interface.Read(p)
 	o.After(&VerifEvent{Call: "Read", Pgid: p.Id()})
 }
 
 func (o *VerifObserved) Write(p *common.Page) {
+	o.before("Write")
 	o.Interface.Write(p)
 	o.After(&VerifEvent{Call: "Write", Pgid: p.Id()})
 }
 
 func (o *VerifObserved) Allocate(txid common.Txid, n int) common.Pgid {
+	o.before("Allocate")
 	r := o.Interface.Allocate(txid, n)
 	o.After(&VerifEvent{Call: "Allocate", Txid: txid, N: n, Ret: uint64(r)})
 	return r
 }
 
 func (o *VerifObserved) AddReadonlyTXID(txid common.Txid) {
+	o.before("AddReadonlyTXID")
 	o.Interface.AddReadonlyTXID(txid)
 	o.After(&VerifEvent{Call: "AddReadonlyTXID", Txid: txid})
 }
 
 func (o *VerifObserved) RemoveReadonlyTXID(txid common.Txid) {
+	o.before("RemoveReadonlyTXID")
 	o.Interface.RemoveReadonlyTXID(txid)
 	o.After(&VerifEvent{Call: "RemoveReadonlyTXID", Txid: txid})
 }
 
 func (o *VerifObserved) ReleasePendingPages() {
+	o.before("ReleasePendingPages")
 	o.Interface.ReleasePendingPages()
 	o.After(&VerifEvent{Call: "ReleasePendingPages"})
 }
 
 func (o *VerifObserved) Free(txid common.Txid, p *common.Page) {
+	o.before("Free")
 	id, ov := p.Id(), p.Overflow()
 	o.Interface.Free(txid, p)
 	o.After(&VerifEvent{Call: "Free", Txid: txid, Pgid: id, Overflow: ov})
 }
 
 func (o *VerifObserved) Rollback(txid common.Txid) {
+	o.before("Rollback")
 	o.Interface.Rollback(txid)
 	o.After(&VerifEvent{Call: "Rollback", Txid: txid})
 }
 
 func (o *VerifObserved) Reload(p *common.Page) {
+	o.before("Reload")
 	o.Interface.Reload(p)
 	o.After(&VerifEvent{Call: "Reload", Pgid: p.Id()})
 }
 
 func (o *VerifObserved) NoSyncReload(ids common.Pgids) {
+	o.before("NoSyncReload")
 	cp := slices.Clone([]common.Pgid(ids))
 	o.Interface.NoSyncReload(ids)
 	o.After(&VerifEvent{Call: "NoSyncReload", Ids: cp})
